@@ -248,6 +248,21 @@ where
     total.into_inner().unwrap()
 }
 
+static ENTRY_MISMATCHES: Mutex<Vec<String>> = Mutex::new(Vec::new());
+static ENTRY_COMPARISONS: std::sync::atomic::AtomicU64 = std::sync::atomic::AtomicU64::new(0);
+
+/// The harness drives the `*_and_return_transcript` entry points; a sample of the calls is repeated
+/// through the plain `verify` / `prove` wrappers and any disagreement lands here.
+pub fn note_entry_mismatch(s: String) {
+    let mut v = ENTRY_MISMATCHES.lock().unwrap();
+    if v.len() < 5 {
+        v.push(s);
+    }
+}
+pub fn note_entry_comparison() {
+    ENTRY_COMPARISONS.fetch_add(1, std::sync::atomic::Ordering::Relaxed);
+}
+
 pub struct Known {
     pub findings: Vec<(String, String, String)>, // (property, sig, text)
 }
@@ -296,6 +311,22 @@ pub fn finish(
     assumptions: &[&str],
 ) -> i32 {
     let known = load_known(ctx);
+    let mut agg = agg;
+    {
+        // entry points must agree (checks whose verdict oracle goes through the verifier)
+        let n = ENTRY_COMPARISONS.load(std::sync::atomic::Ordering::Relaxed);
+        if n > 0 {
+            agg.counters.insert("entry points compared (verify vs verify_and_return_transcript)".into(), n);
+        }
+        let mm = ENTRY_MISMATCHES.lock().unwrap().clone();
+        if let Some(first) = mm.first() {
+            if matches!(ctx.id, "C01" | "C02" | "C03" | "C04" | "C05" | "C07" | "C17") {
+                agg.viols.push((json!({"entry_points": mm}), Viol { sig: "entry-points-disagree".into(), what: first.clone(), detail: json!({}) }));
+            } else {
+                agg.inconclusive.push(format!("entry points disagree (see C01-C05): {}", first));
+            }
+        }
+    }
     let mut real_viols = vec![];
     let mut known_hits: BTreeMap<String, String> = BTreeMap::new();
     for (case, v) in &agg.viols {
